@@ -1163,6 +1163,8 @@ impl<'a> VisitMut for Rw<'a> {
         }
         *f.expr = parse_quote!(__vx_iter!(#lit, #it));
         f.body.stmts.insert(0, parse_quote!(__vx_loop!(#lit);));
+        // T12b: a guard that skips the rest of the iteration becomes the equivalent nesting
+        nest_continues(&mut f.body.stmts, &mut self.sites);
         // T12: continue in tail position
         if let Some(last) = f.body.stmts.last_mut() {
             tail_continue(last, &mut self.sites);
@@ -1517,6 +1519,60 @@ impl<'ast> Visit<'ast> for ContinueFinder {
     fn visit_expr_while(&mut self, _f: &'ast ExprWhile) {}
     fn visit_expr_loop(&mut self, _f: &'ast ExprLoop) {}
     fn visit_expr_closure(&mut self, _f: &'ast ExprClosure) {}
+}
+
+fn is_only_continue(b: &Block) -> bool {
+    b.stmts.len() == 1
+        && match &b.stmts[0] {
+            Stmt::Expr(Expr::Continue(c), _) => c.label.is_none(),
+            _ => false,
+        }
+}
+
+/// T12b: at the statement level of a `for` body,
+///   `let PAT = EXPR else { continue; }; REST`  ->  `if let PAT = EXPR { REST }`
+///   `if COND { continue; } REST`               ->  `if !(COND) { REST }`
+/// (the loop body has type `()`, so skipping REST and falling off the end of the iteration is what `continue` does)
+fn nest_continues(stmts: &mut Vec<Stmt>, sites: &mut BTreeMap<String, usize>) {
+    let mut i = 0;
+    while i < stmts.len() {
+        let mut replacement: Option<Stmt> = None;
+        match &stmts[i] {
+            Stmt::Local(l) => {
+                if let Some(init) = &l.init {
+                    if let Some((_, els)) = &init.diverge {
+                        if let Expr::Block(eb) = &**els {
+                            if is_only_continue(&eb.block) && !matches!(l.pat, Pat::Type(_)) && i + 1 <= stmts.len() {
+                                let mut rest: Vec<Stmt> = stmts[i + 1..].to_vec();
+                                nest_continues(&mut rest, sites);
+                                let pat = &l.pat;
+                                let ex = &init.expr;
+                                let e: Expr = parse_quote!(if let #pat = #ex { #(#rest)* });
+                                replacement = Some(Stmt::Expr(e, None));
+                            }
+                        }
+                    }
+                }
+            }
+            Stmt::Expr(Expr::If(iff), _) => {
+                if iff.else_branch.is_none() && is_only_continue(&iff.then_branch) && i + 1 < stmts.len() {
+                    let mut rest: Vec<Stmt> = stmts[i + 1..].to_vec();
+                    nest_continues(&mut rest, sites);
+                    let c = &iff.cond;
+                    let e: Expr = parse_quote!(if !(#c) { #(#rest)* });
+                    replacement = Some(Stmt::Expr(e, None));
+                }
+            }
+            _ => {}
+        }
+        if let Some(r) = replacement {
+            stmts.truncate(i);
+            stmts.push(r);
+            *sites.entry("T12b-nest-continue".into()).or_insert(0) += 1;
+            return;
+        }
+        i += 1;
+    }
 }
 
 fn tail_continue_expr(e: &mut Expr, sites: &mut BTreeMap<String, usize>) {
